@@ -414,7 +414,8 @@ func (e *env) wait(cond func() bool, what string, actions bool) int {
 // inputForm says whether the peer's byte stream is a well-formed XMPP stream
 // as far as it goes: no syntax error, no unfinished construct at its end, and
 // none of the constructs XMPP forbids (comments, processing instructions,
-// directives), all of which make a reader of the library fail.
+// directives, stream-namespace elements inside the stream), all of which make
+// a reader of the library fail.
 func inputForm(b []byte) string {
 	d := xml.NewDecoder(bytes.NewReader(b))
 	depth, first := 0, true
@@ -436,6 +437,11 @@ func inputForm(b []byte) string {
 		}
 		switch t := tok.(type) {
 		case xml.StartElement:
+			if depth >= 1 && t.Name.Space == nsStream {
+				// stream-level element (error, restart, ...) where a stanza or a
+				// payload is expected: the library's stream reader fails on it
+				return "malformed-input"
+			}
 			depth++
 		case xml.EndElement:
 			depth--
